@@ -28,7 +28,7 @@ META = {
                 "csr.bus.Multiplexer.elaborate", "csr.reg.Bridge.elaborate", "wishbone.sram.WishboneSRAM.elaborate",
                 "csr.event.EventMonitor.elaborate", "gpio.Peripheral.elaborate", "memory.MemoryMap.add_window",
                 "memory.MemoryMap.window_patterns", "memory.MemoryMap.all_resources", "memory.MemoryMap.decode_address"],
-    "also": "zero-width leaf registers; registers added to a map after its multiplexer object exists; decoders whose windows are all explicit and added from the top address down; finding D4's unbalanceable layout behind a decoder; a warm-up instance elaborated first; partly built decoders inspected and elaborated between add() calls; a 10-bit register file with registers above address 256",
+    "also": "zero-width leaf registers; registers added to a map after its multiplexer object exists; decoders whose windows are all explicit and added from the top address down; finding D4's unbalanceable layout behind a decoder; a warm-up instance elaborated first; partly built decoders inspected and elaborated between add() calls; a 10-bit register file with registers above address 256; inventory: every register / memory built is listed by the root map",
     "bounds": "CSR roots: csr.Decoder (addr width 5-8, data width 8/16, alignment 0-4) over 1-3 windows, each a stub-"
               "register multiplexer (1-3 registers, unaligned / padded), a register bridge, an event monitor (1-24 "
               "events), a GPIO peripheral or a nested decoder (depth <= 3); named/anonymous, implicit / explicit "
@@ -59,6 +59,7 @@ def _leaf(spec, dw, top, path):
         if late:
             M.build_map(cfg, mm=mm, regs=regs, start=len(spec["regs"]) - late)
         top.submodules["_".join(path)] = mx
+        _BUILT.extend(regs)
         return mx.bus, regs
     if k == "bridge":
         class Reg(csr.Register, access="rw"):
@@ -69,6 +70,7 @@ def _leaf(spec, dw, top, path):
             b.add(f"reg{i}", Reg(w))
         br = csr.Bridge(b.as_memory_map())
         top.submodules["_".join(path)] = br
+        _BUILT.extend(i.resource for i in br.bus.memory_map.all_resources())
         return br.bus, []
     if k == "evmon":
         srcs = [event.Source(trigger=t, path=(f"{'_'.join(path)}_s{i}",)) for i, t in enumerate(spec["trg"])]
@@ -77,10 +79,12 @@ def _leaf(spec, dw, top, path):
             em.add(s)
         mon = csr.EventMonitor(em, data_width=dw, alignment=spec.get("align", 0))
         top.submodules["_".join(path)] = mon
+        _BUILT.extend(i.resource for i in mon.bus.memory_map.all_resources())
         return mon.bus, []
     if k == "gpio":
         g = gpio.Peripheral(pin_count=spec["pins"], addr_width=spec["aw"], data_width=dw, input_stages=1)
         top.submodules["_".join(path)] = g
+        _BUILT.extend(i.resource for i in g.bus.memory_map.all_resources())
         return g.bus, []
     if k == "dec":
         dec = csr.Decoder(addr_width=spec["aw"], data_width=dw, alignment=spec.get("align", 0))
@@ -98,6 +102,7 @@ def _leaf(spec, dw, top, path):
 
 
 _INSPECT = [False]
+_BUILT = []        # every register the leaf components of the hierarchy under construction contain (their OWN maps)
 
 
 def _inspect(dec):
@@ -116,6 +121,7 @@ def _inspect(dec):
 
 def _build(cfg):
     _INSPECT[0] = bool(cfg.get("inspect"))
+    del _BUILT[:]
     top = Module()
     if cfg["root"] == "csr":
         bus, stubs = _leaf(cfg["tree"], cfg["dw"], top, ("root",))
@@ -180,7 +186,7 @@ def maker(cfg):
                     sg = raw(sg)
                     if not any(sg is p for p in ports):
                         ports.append(sg)
-        return Harness(top, ports, bus=bus, mm=mm, leaves=leaves, stubs=stubs, srams=srams or [], mems=mems)
+        return Harness(top, ports, bus=bus, mm=mm, leaves=leaves, stubs=stubs, srams=srams or [], mems=mems, built=list(_BUILT))
     return make
 
 
@@ -642,11 +648,39 @@ def queries(h, cfg):
     return csr_queries(h, cfg) if cfg["root"] == "csr" else wb_queries(h, cfg)
 
 
+def _missing(cfg):
+    """registers (and SRAMs) that exist in the design but that the ROOT memory map does not list: the map would be
+    silent about hardware that responds"""
+    h = maker(cfg)()
+    listed = {id(i.resource) for i in h.mm.all_resources()}
+    miss = [type(r).__name__ for r in h.built if id(r) not in listed]
+    for name, s in h.srams:
+        for res, _, _ in s.wb_bus.memory_map.resources():
+            if id(res) not in listed:
+                miss.append(f"SRAM {name}")
+    return miss
+
+
 def check(cfg, out, stats):
     import sys
+    try:
+        miss = _missing(cfg)
+    except (ValueError, TypeError):
+        miss = []          # (a refused configuration is reported by run_queries)
+    if miss:
+        from ..bmc import mark_violation
+        from ..e1 import cfg_key
+        mark_violation("missing-from-root-map")
+        out.violations.append({"key": f"missing-from-root-map@{cfg_key(cfg)}",
+                               "what": f"C01 {len(miss)} register(s) / memories of the hierarchy are missing from the root memory "
+                                       f"map ({', '.join(miss[:4])}) ({cfg_key(cfg)})", "query": "inventory", "cfg": cfg,
+                               "stimulus": [], "prefix": 0, "k": 0, "detail": {}})
+        return
     run_queries(sys.modules[__name__], cfg, out, stats, cosim_cycles=12)
 
 
 def replay(v):
     import sys
+    if v["query"] == "inventory":
+        return bool(_missing(v["cfg"]))
     return _replay(sys.modules[__name__], v)
